@@ -85,21 +85,38 @@ class FileSystem(HostObj):
 
     def __init__(self):
         self.files = {}
-        self.writes = []
+        self.stamps = {}
+        self.clock = 0
 
     def key(self, p):
         return str(p)
 
     def clear(self):
         self.files.clear()
-        del self.writes[:]
+        self.stamps.clear()
+        self.clock = 0
+
+    def write(self, p, content):
+        k = self.key(p)
+        self.clock += 1
+        self.files[k] = content
+        self.stamps[k] = self.clock
 
     def stat(self, p):
         k = self.key(p)
         if k not in self.files:
             raise PyRaise(FileNotFoundError, (k,))
-        version = len([w for w in self.writes if w == k])
-        return StatResult(version)
+        return StatResult(self.stamps[k])
+
+    def backup(self):
+        """copy of all files with their time stamps (cp -p)"""
+        return dict(self.files), dict(self.stamps)
+
+    def restore(self, saved):
+        """put saved files back WITH their old time stamps (cp -p / tar x): the stamps go backwards"""
+        files, stamps = saved
+        self.files.update(files)
+        self.stamps.update(stamps)
 
 
 class StatResult(HostObj):
@@ -127,8 +144,7 @@ class TextFile(HostObj):
     def __exit__(self, *a):
         if "w" in self.mode:
             blobs = [p for p in self.parts if isinstance(p, Blob)]
-            self.fs.files[self.fs.key(self.path)] = blobs[-1] if blobs else list(self.parts)
-            self.fs.writes.append(self.fs.key(self.path))
+            self.fs.write(self.path, blobs[-1] if blobs else list(self.parts))
         return False
 
 
@@ -456,9 +472,7 @@ def install(eng, fs=None):
 
     def uproot_recreate(path):
         f = RootFile(fs, path)
-        eng.path.__dict__.setdefault("io_log", []).append(("recreate", fs.key(path)))
-        fs.files[fs.key(path)] = f
-        fs.writes.append(fs.key(path))
+        fs.write(path, f)
         return f
 
     def uproot_open(path):
